@@ -7,6 +7,7 @@ import (
 	"fmt"
 	"image"
 	"image/color"
+	"strings"
 	"testing"
 
 	"github.com/makiuchi-d/gozxing"
@@ -56,6 +57,32 @@ func grayOf(c Case, x, y int, rng func(x, y int) uint64) byte {
 	switch {
 	case c.Pixels == "bilevel":
 		if rng(x, y)&1 == 0 {
+			return 0
+		}
+		return 255
+	case strings.HasPrefix(c.Pixels, "blocks:"):
+		// solid black / white blocks of k x k pixels (large uniform areas, also at the image edges)
+		k := 8
+		fmt.Sscanf(c.Pixels[7:], "%d", &k)
+		if k < 1 {
+			k = 1
+		}
+		if rng(x/k, y/k)&1 == 0 {
+			return 0
+		}
+		return 255
+	case c.Pixels == "black":
+		return 0
+	case c.Pixels == "white":
+		return 255
+	case strings.HasPrefix(c.Pixels, "blackframe:"):
+		// white-on-black picture: a black margin of m pixels around bilevel noise
+		m := 40
+		fmt.Sscanf(c.Pixels[11:], "%d", &m)
+		if x < m || y < m {
+			return 0
+		}
+		if rng(x/3, y/3)&1 == 0 {
 			return 0
 		}
 		return 255
@@ -582,8 +609,16 @@ func gen(t *rapid.T, binar bool) (Case, string, bool) {
 	if binar {
 		c.Pixels = "bilevel"
 		c.Binarizer = rapid.SampledFrom([]string{"global", "hybrid"}).Draw(t, "binarizer")
-		if rapid.IntRange(0, 3).Draw(t, "sym") == 0 {
+		switch rapid.IntRange(0, 7).Draw(t, "sym") {
+		case 0, 1:
 			c.Pixels = "symbol:" + rapid.SampledFrom(symNames).Draw(t, "symname")
+		case 2:
+			c.Pixels = fmt.Sprintf("blocks:%d", rapid.SampledFrom([]int{2, 8, 16, 40, 64}).Draw(t, "blk"))
+		case 3:
+			c.Pixels = rapid.SampledFrom([]string{"black", "white", "blackframe:40", "blackframe:48", "blackframe:9"}).Draw(t, "solid")
+			if rapid.Bool().Draw(t, "large") {
+				c.W, c.H = rapid.IntRange(40, 200).Draw(t, "lw"), rapid.IntRange(40, 200).Draw(t, "lh")
+			}
 		}
 		if rapid.Bool().Draw(t, "around40") {
 			c.W, c.H = rapid.IntRange(36, 47).Draw(t, "w40"), rapid.IntRange(36, 47).Draw(t, "h40")
